@@ -20,6 +20,8 @@ THEOREMS = [
     "Aio.C07.close_closes_all",
     "Aio.C07.every_open_connection_tracked",
     "Aio.C07.cleanup_partitions",
+    "Aio.C07.endpointKey_eq_iff",
+    "Aio.C07.endpointKey_default_port",
     "Aio.C07.release_waiter_wakes",
     "Aio.C07.no_forgotten_waiter_partial",
     "Aio.C07.f7_limit_exceeded_unfixed",
@@ -36,8 +38,11 @@ RULE = ("a case = (limit, limit_per_host, key of each of N tasks, label sequence
         "keep-alive sweep firing in between, reuse, close), close-in-hook (close() while a task is suspended in each of the five trace hooks, before/after the callback "
         "returns, then everything runs to completion; the run fails as machinery error if one hook is never hit), traced (suspending on_connection_reuseconn/queued_start/queued_end/create_start/create_end callbacks "
         "resolved by label, any subset), noise (arbitrary labels incl. disabled ones), scripted scenarios; thorough adds the exhaustive exploration "
-        "of every reachable state and transition for N<=3 tasks (all placements of cancel/fail/close). Plus 810 ClientSession-level "
-        "scenarios (limit kind x request body kind x expect100 x scripted peer x how the caller ends the exchange) judged by "
+        "of every reachable state and transition for N<=3 tasks (all placements of cancel/fail/close). Plus ClientSession-level "
+        "scenarios: (i) request body / expect100 / peer / ending, (ii) response consumption: response headers (plain, advertising "
+        "Upgrade, keep-alive, close) x framing x segmentation x consumer (streaming to EOF while keeping the response, read, "
+        "release, context manager), (iii) URL spellings of one endpoint vs distinct endpoints under limit_per_host; first family "
+        "was 810 scenarios (limit kind x request body kind x expect100 x scripted peer x how the caller ends the exchange) judged by "
         "a direct oracle. Non-trivial = at least one task reached the pool; distinct by content.")
 TRUSTED_BASE = [
     "the hand-written model AioModel/C07.lean is tied to connector.py only by trace conformance (state projection after every label)",
@@ -576,13 +581,73 @@ def check_sessions(ctx):
                 "session:peer=" + sc["peer"] + ("+expect100" if sc["expect100"] else ""))
         for sig, detail in c07_session.judge(sc, obs):
             ctx.violation("C07/" + sig, {"kind": "session", **sc}, detail)
+    # family 2: the connection goes back when the body has been received, whatever the headers / framing / consumer
+    for sc in c07_session.consume_scenarios():
+        obs = c07_session.run_consume(sc)
+        n += 1
+        ctx.case(("session", tuple(sorted(sc.items()))), nontrivial=True)
+        ctx.hit("consume:headers=" + sc["resp_headers"], "consume:consumer=" + sc["consumer"],
+                "consume:" + sc["framing"] + "/" + sc["timing"])
+        for sig, detail in c07_session.judge_consume(sc, obs):
+            ctx.violation("C07/" + sig, {"kind": "session", **sc}, detail)
+    # family 3: limit_per_host is per endpoint, not per URL spelling
+    for sc in c07_session.spelling_scenarios():
+        obs = c07_session.run_spelling(sc)
+        n += 1
+        ctx.case(("session", sc["lph"], tuple(sc["names"])), nontrivial=True)
+        ctx.hit("spelling:pairs" if len(sc["names"]) <= 4 else "spelling:all")
+        for sig, detail in c07_session.judge_spelling(sc, obs):
+            ctx.violation("C07/" + sig, {"kind": "session", **sc}, detail)
     ctx.extra["session_scenarios"] = n
+    check_keys(ctx)
+
+
+def check_keys(ctx):
+    """correspondence for the endpoint part of ClientRequest.connection_key: the real keys of all URL spellings fall
+    into the same classes as Aio.C07.endpointKey(raw_host, explicit_port, is_ssl) (yarl's parsing is trusted)"""
+    from yarl import URL
+    names = list(c07_session.SPELLINGS)
+    extra = {"ipv4": "http://127.0.0.1/", "ipv4-port": "http://127.0.0.1:80/", "ipv6": "http://[::1]/", "ipv6-port": "http://[::1]:80/",
+             "ws": "ws://h0/", "wss": "wss://h0/", "wss-port": "wss://h0:443/", "idna": "http://bücher.example/",
+             "idna-punycode": "http://xn--bcher-kva.example:80/", "port-0443": "https://h0:0443/"}
+    c07_session.SPELLINGS.update({k: (v, None) for k, v in extra.items()})
+    try:
+        names = list(c07_session.SPELLINGS)
+        obs = c07_session.run_spelling({"family": "spelling", "lph": 100, "names": names})
+    finally:
+        for k in extra:
+            c07_session.SPELLINGS.pop(k, None)
+    real = obs.get("key_list", [])
+    if len(real) != len(names):
+        from .common.guard import MachineryError
+        raise MachineryError(f"connection keys: {len(real)} keys recorded for {len(names)} requests")
+    lines = []
+    for nme in names:
+        u = URL(dict(c07_session.SPELLINGS, **{k: (v, None) for k, v in extra.items()})[nme][0])
+        host = u.raw_host or ""
+        lines.append("key " + (".".join(str(ord(ch)) for ch in host) or "-") + " " +
+                     ("-" if u.explicit_port is None else str(u.explicit_port)) + " " + ("1" if u.scheme in ("https", "wss") else "0"))
+    outs = ctx.model(lines)
+    if outs is None:
+        return
+    for i in range(len(names)):
+        for k in range(i + 1, len(names)):
+            ctx.compare({"kind": "keys", "a": names[i], "b": names[k]}, real[i] == real[k], outs[i] == outs[k],
+                        "ClientRequest.connection_key equality vs Aio.C07.endpointKey equality")
+            ctx.case(("keys", names[i], names[k]), nontrivial=True)
 
 
 def replay(ctx, case):
     if case.get("kind") == "session":
         sc = {k: v for k, v in case.items() if k != "kind"}
-        for sig, detail in c07_session.judge(sc, c07_session.run_scenario(sc)):
+        fam = sc.get("family")
+        if fam == "consume":
+            res = c07_session.judge_consume(sc, c07_session.run_consume(sc))
+        elif fam == "spelling":
+            res = c07_session.judge_spelling(sc, c07_session.run_spelling(sc))
+        else:
+            res = c07_session.judge(sc, c07_session.run_scenario(sc))
+        for sig, detail in res:
             ctx.violation("C07/" + sig, case, detail)
         return
     _, j = run_case(case, want_proj=False)
